@@ -55,7 +55,9 @@ const fuzzMaxInput = 1 << 14
 
 var FuzzTargets = []FuzzTarget{
 	{"FuzzC03Decode", "C03", fuzzC03, seedCBOR},
-	{"FuzzC10Cbor", "C10", fuzzC10Cbor, func() [][]byte { return prefixAll(seedCBOR(), []byte{0x00, 0x00}, []byte{0xff, 0x03}, []byte{0x15, 0x02}) }},
+	{"FuzzC10Cbor", "C10", fuzzC10Cbor, func() [][]byte {
+		return prefixAll(seedCBOR(), []byte{0x00, 0x00}, []byte{0xff, 0x03}, []byte{0x15, 0x02})
+	}},
 	{"FuzzC10Json", "C10", fuzzC10Json, func() [][]byte { return prefixAll(seedJSON(), []byte{0x00}, []byte{0x0f}, []byte{0x35}) }},
 	{"FuzzC10Selector", "C10", fuzzC10Selector, seedSelectors},
 	{"FuzzC04Roundtrip", "C04", fuzzC04, seedJSON},
@@ -423,7 +425,7 @@ func fuzzC09Typed(c *fw.Ctx, data []byte) {
 	}
 	c.Count("typed_inputs", 1)
 	typedmon.CheckConformanceViaCodec(c, f.eng, f.ts, t, v, "dag-cbor", "fuzz")
-	if !typedmon.HasComplexKeys(f.ts, t) {
+	if !typedmon.HasStructKeys(f.ts, t) {
 		typedmon.CheckConformance(c, f.eng, f.ts, t, v, true, "fuzz")
 		typedmon.CheckConformance(c, f.eng, f.ts, t, v, false, "fuzz")
 	}
